@@ -1,8 +1,9 @@
-//! K-sort mini-crate: the real `src/util/trysort.rs` (unsafe merge sort with a fallible comparator)
-//! and `src/util/forward_err.rs` of the scratch copy, included textually and compiled unmodified.
+//! K-sort mini-crate: the real `src/util/trysort.rs` (unsafe merge sort with a fallible comparator),
+//! `src/util/try_heap.rs` (unsafe binary heap with a fallible comparator) and `src/util/forward_err.rs` of the scratch copy, included textually and compiled unmodified.
 //! The harness module sits inside the same module so that it can reach the private functions.
 #![allow(dead_code, unused_imports, unused_macros)]
 
+#[macro_use]
 #[path = "@REPO@/src/util/forward_err.rs"]
 mod forward_err;
 
@@ -12,6 +13,21 @@ pub mod trysort {
     #[cfg(kani)]
     #[path = "@MINI@/src/harness.rs"]
     mod harness;
+}
+
+/// `crate::xvalue::XResult` as util/try_heap.rs names it (violation outside, error value inside)
+pub mod xvalue {
+    pub struct ErrV<W, R, T>(pub u8, pub core::marker::PhantomData<(W, R, T)>);
+    pub struct Viol(pub u16);
+    pub type XResult<I, W, R, T> = Result<Result<I, ErrV<W, R, T>>, Viol>;
+}
+
+pub mod try_heap {
+    include!("@REPO@/src/util/try_heap.rs");
+
+    #[cfg(kani)]
+    #[path = "@MINI@/src/heap_harness.rs"]
+    mod heap_harness;
 }
 
 fn main() {}
